@@ -25,8 +25,24 @@
 (* The property must hold for EVERY auction of the history: all invariants are quantified over  *)
 (* the auctions and judge auction i by its OWN inputs only (cfg[i], tab[i], the answers given   *)
 (* to auction i and their phases).  The only state the property makes persistent on the         *)
-(* instance is `cache` (the winner or the "no bid" dummy per auctioned key); `prov` is the      *)
-(* environment's (a relay client reports the public key that is part of its address).           *)
+(* instance is `cache` (the winner or the "no bid" dummy per auctioned key).                    *)
+(*                                                                                              *)
+(* WHO A RELAY IS (round 5).  The property speaks of "the relay's public key" as known for the  *)
+(* relay AS CONFIGURED FOR THE VALIDATOR whose block is auctioned.  A relay of the              *)
+(* configuration is an ADDRESS = (location, spelling): the location is the server (Relays), the *)
+(* spelling is the user-information part of the URL, which IS the relay's public key            *)
+(* ("none", "K1", "K2": http://host, http://0x<K1>@host, http://0x<K2>@host - after a key       *)
+(* rotation, or in the proposer-specific section of another validator).  The key known for      *)
+(* relay r in auction i is the RelayConfig's public_key if the configuration carries one, else  *)
+(* the key of the address spelled in THIS auction's configuration (cfg[i][r].sp), else none.    *)
+(* Between the configuration and the strategies sits a component with state of its own, the     *)
+(* process-wide client cache of util.FetchBuilderClient (`clients`): both strategies, the        *)
+(* registration submitter and the unblinder obtain the relay client from it, and the strategies *)
+(* read the address's key from the client they were handed (provider.Pubkey()).  The cache is   *)
+(* modelled as what it is: a map from cache key to the client, a client remembering the address *)
+(* it was created from; `Fetch` is a fetch by another user (order of first use), `Start` fetches *)
+(* the clients of its relays (`cl[i]`).  In the specified design the cache key is the address,  *)
+(* so the client handed out for an address reports that address's key (ClientOfAddress).        *)
 (* Everything else must be history-independent.  `memo` is the state that the named DEVIATING   *)
 (* designs keep on the instance (vacuity self-checks: every one of them is right on a fresh     *)
 (* instance, respectively on sequential histories, and TLC must reject it on histories):        *)
@@ -34,6 +50,9 @@
 (*   KeyMemo     whether a relay's bids need a signature check is remembered by relay address   *)
 (*   TabMemo     the builder catalogue (offset / factor per builder) is remembered              *)
 (*   SharedBest  the best score so far lives in the service (reset when an auction starts)      *)
+(*   ClientByLoc the client cache is keyed by the relay's LOCATION: the client created for the  *)
+(*               spelling used first serves every spelling of that location, with its key       *)
+(*               (right on every instance on which each relay is written one way)               *)
 (*                                                                                              *)
 (* One action per interface call / critical section:                                            *)
 (*   Start(i,k,c,t)  AuctionBlock is called for key k = (slot, parent, pubkey); the execution   *)
@@ -48,16 +67,20 @@
 (*                   expires (every auction has its own clock: time-outs count from its start)  *)
 (*   Return(i)       the strategy returns its Results and AuctionBlock caches the winner        *)
 (*   Serve(k)        BuilderBid(slot, parent, pubkey) on a key that has been auctioned          *)
+(*   Fetch(r,sp)     another user of util.FetchBuilderClient (submission of validator            *)
+(*                   registrations at start-up and every epoch, unblinding) fetches the client   *)
+(*                   of address (r, sp): the client is created if the cache has none             *)
 EXTENDS Integers, FiniteSets, Sequences, TLC
 
 CONSTANTS Variants,      \* subset of {"best", "deadline"}
           Relays,        \* relay ids = relay addresses (positive integers)
-          ProvSet,       \* set of [Relays -> BOOLEAN]: which relay clients report their public key themselves
+          FetchSet,      \* addresses <<r, sp>> that other users of the client cache may fetch
           Values,        \* bid values (naturals; 0 = the "zero value" bid)
-          CfgSet,        \* set of per-auction relay configurations [Relays -> [min, key, grace]]:
-                         \*   min = configured minimum value, key \in {"none", "config"} = whether the relay
-                         \*   configuration of THIS auction carries the public key, grace = grace period
-                         \*   (0 = none; timing only)
+          CfgSet,        \* set of per-auction relay configurations [Relays -> [min, key, grace, sp]]:
+                         \*   min = configured minimum value, key \in {"none", "config", "config2"} = the
+                         \*   public_key of the relay configuration of THIS auction (none / K1 / K2), grace =
+                         \*   grace period (0 = none; timing only), sp \in Spellings = the key spelled in the
+                         \*   user-information part of the relay address of THIS auction's configuration
           TableSet,      \* builder catalogues an auction may be run with (subset of {"A", "B"})
           BuilderSet,    \* subset of Builders
           AnswerSet,     \* the answers the environment may give (subset of Answers)
@@ -66,12 +89,14 @@ CONSTANTS Variants,      \* subset of {"best", "deadline"}
           Keys,          \* (slot, parent, pubkey) keys
           MaxAuctions,   \* length of the history
           MaxOpen,       \* auctions in progress at the same time
-          Deviation      \* "none" | "MinMemo" | "KeyMemo" | "TabMemo" | "SharedBest"
+          Deviation      \* "none" | "MinMemo" | "KeyMemo" | "TabMemo" | "SharedBest" | "ClientByLoc"
 
 Auc == 1..MaxAuctions
 
 VARIABLES variant,    \* instance: which strategy (fixed when the service is created)
-          prov,       \* instance (environment): [Relays -> BOOLEAN] relay client reports its public key
+          clients,    \* PERSISTENT (process-wide, util.builders): [ClientKeys -> "unset" | the spelling of the
+                      \*   address the client held under that key was created from]
+          cl,         \* [Auc -> [Relays -> spelling the client handed to auction i for relay r was created from]]
           st,         \* [Auc -> "idle" | "open" | "done" | "past"] (past = done and folded away, see Start)
           cfg,        \* [Auc -> [Relays -> [min, key, grace]]]   input of auction i
           tab,        \* [Auc -> TableSet]                         input of auction i
@@ -89,8 +114,8 @@ VARIABLES variant,    \* instance: which strategy (fixed when the service is cre
           lost,       \* ghost [Auc -> eligible bids that the relay goroutine did not hand to the main loop] (deviations only)
           memo        \* what a deviating design remembers on the instance (constant for Deviation = "none")
 
-avars == <<st, cfg, tab, key, clock, rounds, chan, winner, providers, part, offers, inel, lost>>
-vars == <<variant, prov, avars, cache, served, memo>>
+avars == <<st, cfg, tab, key, cl, clock, rounds, chan, winner, providers, part, offers, inel, lost>>
+vars == <<variant, clients, avars, cache, served, memo>>
 
 -----------------------------------------------------------------------------
 (* Builder catalogues (services/blockrelay/builderconfig.go): absent offset/factor = identity.  *)
@@ -110,7 +135,12 @@ Score(t, val, b) ==
     LET s1 == IF BOff(t, b) = None THEN val ELSE val + BOff(t, b)
     IN IF BFac(t, b) = None THEN s1 ELSE (s1 * BFac(t, b)) \div 100
 
+\* Who signed a bid: "valid" = the relay's key K1, "invalid" = another key, K2 (which IS the relay's key for a
+\* validator whose configuration names K2 for the relay), "unverifiable" = bytes that are no signature.
 Sigs == {"valid", "invalid", "unverifiable"}
+Spellings == {"none", "K1", "K2"}
+KeyName(k) == CASE k = "config" -> "K1" [] k = "config2" -> "K2" [] OTHER -> "none"
+SigOK(s, k) == (s = "valid" /\ k = "K1") \/ (s = "invalid" /\ k = "K2")
 
 Bids == [kind : {"bid"}, val : Values, bld : BuilderSet, hdr : Headers,
          feeZero : BOOLEAN, tsOk : BOOLEAN, sig : Sigs]
@@ -120,21 +150,23 @@ ErrorAnswer == [Filler EXCEPT !.kind = "error"]
 Answers == Bids \cup {NoBidAnswer, ErrorAnswer}
 
 \* C09: value at least the relay's minimum, non-zero value, non-zero fee recipient, timestamp equal
-\* to the slot start, valid relay signature when the relay's public key is known
-Eligible(a, min, known) ==
+\* to the slot start, valid relay signature when the relay's public key is known (k = that key or "none")
+Eligible(a, min, k) ==
     /\ a.kind = "bid"
     /\ a.val >= min
     /\ a.val # 0
     /\ ~a.feeZero
     /\ a.tsOk
-    /\ (known => a.sig = "valid")
+    /\ (k # "none" => SigOK(a.sig, k))
 
 \* the inputs of auction i, as the property reads them ...
 MinOf(i, r) == cfg[i][r].min
-KnownOf(i, r) == cfg[i][r].key = "config" \/ prov[r]
+KeyOf(i, r) == IF cfg[i][r].key # "none" THEN KeyName(cfg[i][r].key) ELSE cfg[i][r].sp
 \* ... and as the (possibly deviating) design reads them
 ImplMin(i, r) == IF Deviation = "MinMemo" THEN memo[r] ELSE MinOf(i, r)
-ImplKnown(i, r) == IF Deviation = "KeyMemo" THEN memo[r] = 1 ELSE KnownOf(i, r)
+\* (the strategies: RelayConfig.PublicKey, else provider.Pubkey() of the client they were handed)
+ImplKey(i, r) == IF Deviation = "KeyMemo" THEN memo[r]
+                 ELSE IF cfg[i][r].key # "none" THEN KeyName(cfg[i][r].key) ELSE cl[i][r]
 ImplTab(i) == IF Deviation = "TabMemo" THEN memo ELSE tab[i]
 
 NoWin == [r |-> 0, n |-> 0, score |-> 0, hdr |-> 0]
@@ -144,19 +176,30 @@ NoBid == [i |-> 0, r |-> 0, n |-> 0]       \* the zero-value dummy: BuilderBid a
 NoReply == [op |-> "none"]
 NoScore == -1000000
 
-DummyCfg == [r \in Relays |-> [min |-> 0, key |-> "none", grace |-> 0]]
+DummyCfg == [r \in Relays |-> [min |-> 0, key |-> "none", grace |-> 0, sp |-> "none"]]
+NoClients == [r \in Relays |-> "none"]
+
+\* The client cache (util.FetchBuilderClient).  The key under which the client of address (r, sp) is held: the
+\* address itself; a deviating design holds one client per location.
+ClientKeys == (Relays \X Spellings) \cup (Relays \X {"*"})
+CacheKey(r, sp) == IF Deviation = "ClientByLoc" THEN <<r, "*">> ELSE <<r, sp>>
+\* the client a fetch of address (r, sp) returns in cache state c, by the spelling it was created from
+Made(c, r, sp) == IF c[CacheKey(r, sp)] = "unset" THEN sp ELSE c[CacheKey(r, sp)]
+\* the cache after the clients of configuration cf have been fetched (one address per location)
+AfterFetches(c, cf) == [k \in ClientKeys |-> IF k = CacheKey(k[1], cf[k[1]].sp) THEN Made(c, k[1], cf[k[1]].sp) ELSE c[k]]
 AnyKey == CHOOSE k \in Keys : TRUE
 AnyTab == CHOOSE t \in TableSet : TRUE
 
 MemoInit == CASE Deviation = "MinMemo" -> [r \in Relays |-> -1]
-              [] Deviation = "KeyMemo" -> [r \in Relays |-> -1]
+              [] Deviation = "KeyMemo" -> [r \in Relays |-> "unset"]
               [] Deviation = "TabMemo" -> "unset"
               [] Deviation = "SharedBest" -> NoScore
               [] OTHER -> 0
 
 Init ==
     /\ variant \in Variants
-    /\ prov \in ProvSet
+    /\ clients = [k \in ClientKeys |-> "unset"]
+    /\ cl = [i \in Auc |-> NoClients]
     /\ st = [i \in Auc |-> "idle"]
     /\ cfg = [i \in Auc |-> DummyCfg]
     /\ tab = [i \in Auc |-> AnyTab]
@@ -182,8 +225,8 @@ Open == {i \in Auc : st[i] = "open"}
 \* what a deviating design remembers when an auction starts (first seen wins)
 MemoAtStart(c, t) ==
     CASE Deviation = "MinMemo" -> [r \in Relays |-> IF memo[r] = -1 THEN c[r].min ELSE memo[r]]
-      [] Deviation = "KeyMemo" -> [r \in Relays |-> IF memo[r] = -1
-                                                    THEN (IF c[r].key = "config" \/ prov[r] THEN 1 ELSE 0)
+      [] Deviation = "KeyMemo" -> [r \in Relays |-> IF memo[r] = "unset"
+                                                    THEN (IF c[r].key # "none" THEN KeyName(c[r].key) ELSE c[r].sp)
                                                     ELSE memo[r]]
       [] Deviation = "TabMemo" -> IF memo = "unset" THEN t ELSE memo
       [] Deviation = "SharedBest" -> NoScore
@@ -203,6 +246,8 @@ Start(i, k, c, t) ==
     /\ cfg' = StartF(cfg, i, c, DummyCfg)
     /\ tab' = StartF(tab, i, t, AnyTab)
     /\ key' = [key EXCEPT ![i] = k]
+    /\ cl' = StartF(cl, i, [r \in Relays |-> Made(clients, r, c[r].sp)], NoClients)
+    /\ clients' = AfterFetches(clients, c)
     /\ clock' = StartF(clock, i, 0, 0)
     /\ rounds' = StartF(rounds, i, [r \in Relays |-> 0], [r \in Relays |-> 0])
     /\ chan' = StartF(chan, i, {}, {})
@@ -214,7 +259,7 @@ Start(i, k, c, t) ==
     /\ lost' = StartF(lost, i, {}, {})
     /\ memo' = MemoAtStart(c, t)
     /\ served' = NoReply
-    /\ UNCHANGED <<variant, prov, cache>>
+    /\ UNCHANGED <<variant, cache>>
 
 \* relay r answers auction i; an eligible bid travels to the main loop (with the score setBuilderBid will
 \* give it), anything else changes nothing
@@ -223,15 +268,15 @@ Deliver(i, r, a) ==
     /\ rounds[i][r] < MaxRoundsOf(variant)
     /\ rounds' = [rounds EXCEPT ![i][r] = @ + 1]
     /\ LET n == rounds[i][r] + 1
-           truly == Eligible(a, MinOf(i, r), KnownOf(i, r))
-           impl == Eligible(a, ImplMin(i, r), ImplKnown(i, r))
+           truly == Eligible(a, MinOf(i, r), KeyOf(i, r))
+           impl == Eligible(a, ImplMin(i, r), ImplKey(i, r))
            e == [r |-> r, n |-> n, score |-> Score(ImplTab(i), a.val, a.bld), tscore |-> Score(tab[i], a.val, a.bld),
                  hdr |-> a.hdr, ph |-> clock[i]]
        IN /\ chan' = [chan EXCEPT ![i] = IF impl THEN @ \cup {e} ELSE @]
           /\ inel' = [inel EXCEPT ![i] = IF truly THEN @ ELSE @ \cup {<<r, n>>}]
           /\ lost' = [lost EXCEPT ![i] = IF truly /\ ~impl THEN @ \cup {e} ELSE @]
     /\ served' = NoReply
-    /\ UNCHANGED <<variant, prov, st, cfg, tab, key, clock, winner, providers, part, cache, offers, memo>>
+    /\ UNCHANGED <<variant, clients, st, cfg, tab, key, cl, clock, winner, providers, part, cache, offers, memo>>
 
 OfferOf(e) == [r |-> e.r, n |-> e.n, score |-> e.tscore, hdr |-> e.hdr]
 
@@ -259,7 +304,7 @@ Consume(i, e) ==
                       /\ UNCHANGED <<winner, memo>>
             ELSE UNCHANGED <<winner, providers, memo>>
     /\ served' = NoReply
-    /\ UNCHANGED <<variant, prov, st, cfg, tab, key, clock, rounds, cache, inel, lost>>
+    /\ UNCHANGED <<variant, clients, st, cfg, tab, key, cl, clock, rounds, cache, inel, lost>>
 
 \* The property does not oblige the strategy to process a bid that cannot become the winner.
 Drop(i, e) ==
@@ -271,14 +316,14 @@ Drop(i, e) ==
     /\ chan' = [chan EXCEPT ![i] = @ \ {e}]
     /\ offers' = [offers EXCEPT ![i] = @ \cup {OfferOf(e)}]
     /\ served' = NoReply
-    /\ UNCHANGED <<variant, prov, st, cfg, tab, key, clock, rounds, winner, providers, part, cache, inel, lost, memo>>
+    /\ UNCHANGED <<variant, clients, st, cfg, tab, key, cl, clock, rounds, winner, providers, part, cache, inel, lost, memo>>
 
 Tick(i) ==
     /\ st[i] = "open"
     /\ clock[i] < 2
     /\ clock' = [clock EXCEPT ![i] = IF variant = "deadline" THEN 2 ELSE @ + 1]
     /\ served' = NoReply
-    /\ UNCHANGED <<variant, prov, st, cfg, tab, key, rounds, chan, winner, providers, part, cache, offers, inel, lost, memo>>
+    /\ UNCHANGED <<variant, clients, st, cfg, tab, key, cl, rounds, chan, winner, providers, part, cache, offers, inel, lost, memo>>
 
 AllAnswered(i) == \A r \in Relays : rounds[i][r] >= 1
 
@@ -300,13 +345,22 @@ Return(i) ==
     /\ st' = [st EXCEPT ![i] = "done"]
     /\ cache' = [cache EXCEPT ![key[i]] = Content(i)]
     /\ served' = NoReply
-    /\ UNCHANGED <<variant, prov, cfg, tab, key, clock, rounds, chan, winner, providers, part, offers, inel, lost, memo>>
+    /\ UNCHANGED <<variant, clients, cfg, tab, key, cl, clock, rounds, chan, winner, providers, part, offers, inel, lost, memo>>
 
 \* BuilderBid on a key that has been auctioned (other auctions may be in progress)
 Serve(k) ==
     /\ cache[k] # Unset
     /\ served' = [op |-> "serve", key |-> k, bid |-> cache[k]]
-    /\ UNCHANGED <<variant, prov, avars, cache, memo>>
+    /\ UNCHANGED <<variant, clients, avars, cache, memo>>
+
+\* another user of util.FetchBuilderClient fetches the client of address (r, sp); only the first fetch of a
+\* cache key changes anything (the client is created from THIS address)
+Fetch(r, sp) ==
+    /\ <<r, sp>> \in FetchSet
+    /\ clients[CacheKey(r, sp)] = "unset"
+    /\ clients' = [clients EXCEPT ![CacheKey(r, sp)] = sp]
+    /\ served' = NoReply
+    /\ UNCHANGED <<variant, avars, cache, memo>>
 
 Next ==
     \/ \E i \in Auc, k \in Keys, c \in CfgSet, t \in TableSet : Start(i, k, c, t)
@@ -314,6 +368,7 @@ Next ==
     \/ \E i \in Auc : \E e \in chan[i] : Consume(i, e) \/ Drop(i, e)
     \/ \E i \in Auc : Tick(i) \/ Return(i)
     \/ \E k \in Keys : Serve(k)
+    \/ \E a \in FetchSet : Fetch(a[1], a[2])
 
 Spec == Init /\ [][Next]_vars
 
@@ -365,6 +420,13 @@ CacheRight ==
     /\ \A i \in Done : cache[key[i]] = Content(i)
     /\ \A k \in Keys : cache[k] # Unset => \E i \in Done \cup Past : key[i] = k
 ServedRight == served.op = "serve" => served.bid = cache[served.key]
+
+\* the client cache as specified: the client handed out for an address was created from that address (it reports
+\* the key spelled in it).  A statement about the DESIGN (checked in the exhaustive runs); the property's
+\* invariants above do not depend on it.
+ClientOfAddress ==
+    /\ \A i \in Auc : st[i] \in {"open", "done"} => \A r \in Relays : cl[i][r] = cfg[i][r].sp
+    /\ \A r \in Relays, sp \in Spellings : clients[<<r, sp>>] \in {"unset", sp}
 
 \* the history is a history: no two auctions of one key, nothing in an auction that has not started
 HistoryShape ==
